@@ -11,7 +11,7 @@ Three ties, all on kernels from the generator of okl_common.py:
   3. the Lean theorems of Props/C20.lean (index coverage, commuting of independent iterations,
      privacy of @exclusive cells) on the loop-structure level.
 """
-import os, sys
+import os, re, sys
 sys.path.insert(0, os.path.dirname(os.path.abspath(__file__)))
 from vlib import *
 import okl_common as G
@@ -44,18 +44,57 @@ def known_shapes(r):
     K = G.Kernel("kf64", ["const int N", "const int M", "const int *in", "int *out", "int *acc"], [o])
     K.meta = {"out_cells": 4 * G.MAXN, "M": None, "feats": {"inner-in-if", "shared"}}
     out.append((K, "inner-in-if"))
+    ARGS = ["const int N", "const int M", "const int *in", "int *out", "int *acc"]
+    OUT = lambda: G.Hdr("o", "int", 0, "N", "<", "++v", bound_is_const=False)
+    # F65: OpenCL and Metal have no rewrite for @atomic: the statement stays a plain read-modify-write
+    o = G.Okl("outer", OUT(), [G.simple_inner(r, "i", 4, kids=[G.Stmt("out[o * 4 + i] = in[i]"),
+                                                              G.Stmt("acc[0] += in[i]", atomic="a", basic=True)])])
+    o.count = "N"
+    K = G.Kernel("kf65", ARGS, [o]); K.meta = {"out_cells": 4 * G.MAXN, "M": None, "feats": {"atomic-basic"}}
+    out.append((K, "atomic-dropped"))
+    # F66: sibling @inner loops with different trip counts pass every rule; the launcher takes the first
+    o = G.Okl("outer", OUT(), [G.simple_inner(r, "i", 4, kids=[G.Stmt("out[o * 4 + i] = in[i]")]),
+                               G.simple_inner(r, "j", 2, kids=[G.Stmt("out[o * 4 + j] += 100", basic=True)])])
+    o.count = "N"
+    K = G.Kernel("kf66", ARGS, [o]); K.meta = {"out_cells": 4 * G.MAXN, "M": None, "feats": {"different-inner-sizes"}}
+    out.append((K, "different-inner-sizes"))
+    # F67: @exclusive with a run-time @inner bound: the Serial/OpenMP array has 1024 cells whatever M is
+    x = G.Decl("exclusive", "int x", "x"); x.total = 1500
+    i1 = G.Okl("inner", G.Hdr("i", "int", 0, "M", "<", "++v", bound_is_const=False), [G.Stmt("{x:x} = in[i % 64]", uses="x")]); i1.count = 1500
+    i2 = G.Okl("inner", G.Hdr("j", "int", 0, "M", "<", "++v", bound_is_const=False), [G.Stmt("out[o * 1500 + j] = {x:x}", uses="x")]); i2.count = 1500
+    o = G.Okl("outer", OUT(), [x, i1, i2]); o.count = "N"
+    K = G.Kernel("kf67", ARGS, [o]); K.meta = {"out_cells": 1500 * G.MAXN, "M": 1500, "feats": {"exclusive-runtime-inner"}}
+    out.append((K, "exclusive-runtime-inner"))
+    # F68: a kernel-scope local used inside an @outer loop: the extracted device kernels do not have it
+    o = G.Okl("outer", OUT(), [G.simple_inner(r, "i", 4, kids=[G.Stmt("out[o * 4 + i] = in[i] + kscope")])])
+    o.count = "N"
+    K = G.Kernel("kf68", ARGS, [G.Decl("plain", "const int kscope = 2 * N"), o]); K.meta = {"out_cells": 4 * G.MAXN, "M": None, "feats": {"kernel-scope-local"}}
+    out.append((K, "kernel-scope-local"))
     return out
 
 
-def exec_round(ck, hb, kernels, label):
+def check_atomics_kept(ck, K, g):
+    """structural oracle for the known shapes: an @atomic statement must come out as an atomic construct"""
+    for m in MODES:
+        if m == "serial" or not g.get(m):
+            continue
+        dev = g[m][0]
+        if not re.search(r"atomic|omp critical", dev):
+            ck.oracle_violation("the %s translation drops @atomic: the update stays a plain read-modify-write" % m,
+                                "## features: atomic-dropped\n" + K.src(), name="okl")
+
+
+def exec_round(ck, hb, kernels, label, modes=None):
     """translate, compile, run; report every difference as an oracle violation with the OKL source as replay"""
     tr = G.translate_all(ck, hb, kernels)
     tus = {}
-    for m in MODES:
+    for m in (modes or MODES):
         items = [(K, g[m]) for K, (g, oo) in zip(kernels, tr) if g and g.get(m)]
         if items:
             tus[m] = (G.build_tu(m, items), ["-fopenmp"] if m == "openmp" else [])
     for K, (g, oo) in zip(kernels, tr):
+        if g is not None and K.name == "kf65":
+            check_atomics_kept(ck, K, g)
         if g is None:
             ck.oracle_violation("translator crashed or failed on a generated rule-conforming kernel: %s" % "; ".join(oo)[:200], K.src(), name="okl")
         else:
@@ -69,7 +108,7 @@ def exec_round(ck, hb, kernels, label):
         for env, rc, so, se in runs:
             if rc is None:
                 ck.oracle_violation("the %s translation does not compile (against the emulation headers): %s" % (m, first_error(se)),
-                                    "\n".join(K.src() for K in kernels[:3]), name="okl")
+                                    "##regen %d %s %s\n" % (ck.seed, ck.tier, kernels[0].name) + "\n".join(K.src() for K in kernels[:3]), name="okl")
                 continue
             seen = set()
             for line in so.splitlines():
@@ -140,12 +179,18 @@ def main(argv):
     for i in range(n_x):
         kernels.append(G.gen_kernel(ck.rng, name="x%d" % i, feats=feats))
     if regen:
-        exec_round(ck, hb, [K for K in kernels if K.name == regen], "c20_replay")
+        exec_round(ck, hb, [K for K in kernels if K.name == regen], "c20_replay", modes=["serial", "openmp"] if regen == "kf67" else None)
         ck.finish(META["level_text"])
     ck.correspond(hb, db, hs, label="okl-structure", timeout=1800, env=env,
                   nontrivial=lambda h, impl: any("serial=K" in o for o in impl))
     if hb:
-        for lo in range(0, len(kernels), 24):
-            exec_round(ck, hb, kernels[lo:lo + 24], "c20_%d" % lo)
+        known = [K for K in kernels if K.name.startswith("kf")]
+        gen = [K for K in kernels if not K.name.startswith("kf")]
+        # the canonical replays of the known findings run apart, so that a sanitizer stop there does not hide other kernels
+        exec_round(ck, hb, [K for K in known if K.name not in ("kf67", "kf68")], "c20_known")
+        exec_round(ck, hb, [K for K in known if K.name == "kf68"], "c20_known68")
+        exec_round(ck, hb, [K for K in known if K.name == "kf67"], "c20_known67", modes=["serial", "openmp"])
+        for lo in range(0, len(gen), 24):
+            exec_round(ck, hb, gen[lo:lo + 24], "c20_%d" % lo)
     ck.cov["counters"]["features_seen"] = " ".join(sorted(feats))
     ck.finish(META["level_text"])
